@@ -47,6 +47,7 @@ type Job struct {
 	ForceOrder map[string]int    `json:"force_order,omitempty"`
 	ReadFault *ReadFaultSpec `json:"read_fault,omitempty"` // the Nth successful read of a file with this suffix fails with EMFILE
 	XDev  string `json:"xdev,omitempty"` // this directory is on another device: renames across its boundary fail with EXDEV
+	PureBuf bool `json:"pure_buf,omitempty"` // replay: the buffer model the recording was made under (vs.PureBuf)
 	TwoWF bool `json:"two_wf,omitempty"` // build the workflow twice (two Workflow objects), run both
 	NoRaceReport bool            `json:"no_race_report,omitempty"` // race build used only to make memory accesses scheduling points (races themselves are C12's)
 	ForceAll   int               `json:"force_all"`
@@ -90,6 +91,7 @@ type Result struct {
 	Samples      []string       `json:"samples"`
 	MapSites     []vs.MapSite   `json:"map_sites,omitempty"`
 	Races        map[string]int `json:"races,omitempty"`
+	PureBuf      bool           `json:"pure_buf,omitempty"` // explored under the pure buffer model (the program polls a buffered channel)
 	Extra        map[string]int `json:"extra,omitempty"`
 	Error        string         `json:"error,omitempty"`
 	Crash        []*vs.CrashState `json:"crash,omitempty"`
@@ -157,6 +159,9 @@ func main() {
 		f, _ := os.Create(pf)
 		pprof.StartCPUProfile(f)
 		defer pprof.StopCPUProfile()
+	}
+	if job.PureBuf {
+		vs.PureBuf = true
 	}
 	sp.InitLog(ioutil.Discard, ioutil.Discard, ioutil.Discard, ioutil.Discard, ioutil.Discard, &errLog)
 	res := &Result{ID: job.ID, Prop: job.Prop, Outcomes: map[string]int{}, Extra: map[string]int{}}
@@ -472,6 +477,7 @@ func runWorkflowJob(job *Job, res *Result) {
 		res.Error = "unknown mode " + job.Mode
 	}
 	res.NOutcomes = len(res.Outcomes)
+	res.PureBuf = vs.PureBuf
 	res.EventOrders = len(r.orders)
 	res.CrashStates = len(vs.Digests)
 	for _, ms := range sites {
@@ -497,6 +503,7 @@ func runWorkflowJob(job *Job, res *Result) {
 				os.MkdirAll(job.ReplayDir, 0777)
 				j := *job
 				j.Mode = "replay"
+			j.PureBuf = vs.PureBuf
 				j.Replay = vs.RaceInfo[k]
 				j.Base = ""
 				j.Budget = 0
@@ -587,6 +594,7 @@ func (r *runner) report(v Violation, s *vs.Sched) {
 			os.MkdirAll(r.job.ReplayDir, 0777)
 			j := *r.job
 			j.Mode = "replay"
+			j.PureBuf = vs.PureBuf
 			j.Replay = rec
 			j.Base = ""
 			j.Budget = 0
